@@ -106,6 +106,36 @@ Section ReadAs.
     end.
 End ReadAs.
 
+(** sibling list of a reader that validates lazily: conversion stops after the first element
+    inside which the tokeniser fails ([conv] says so); [cut]: it fails after the last one *)
+Section CutForest.
+  Context {E R : Type}.
+  Variable conv : E -> relem R * bool.
+  Fixpoint cut_forest (l : list E) (cut : bool) : list (relem R) * bool :=
+    match l with
+    | [] => ([], cut)
+    | k :: r =>
+      let ke := conv k in
+      if snd ke then ([fst ke], true)
+      else let rr := cut_forest r cut in (fst ke :: fst rr, snd rr)
+    end.
+End CutForest.
+
+(** m[k] on a decoded JSON object (the last of duplicate members), mapped through [f] *)
+Section JFind.
+  Context {V A : Type}.
+  Variable f : V -> A.
+  Fixpoint jfind_map (k : list Z) (m : list (list Z * V)) : option A :=
+    match m with
+    | [] => None
+    | (k', v) :: r =>
+      match jfind_map k r with
+      | Some x => Some x
+      | None => if seqb k' k then Some (f v) else None
+      end
+    end.
+End JFind.
+
 Section WithRegistry.
   Variable G : registry.
 
@@ -236,27 +266,14 @@ Section WithRegistry.
   Fixpoint xml_relem (e : xelem) : relem XRaw * bool :=
     match e with
     | XE name attrs kids cut =>
-      let fr := (fix go (l : list xelem) : list (relem XRaw) * bool :=
-                   match l with
-                   | [] => ([], cut)
-                   | k :: r =>
-                     let ke := xml_relem k in
-                     if snd ke then ([fst ke], true)
-                     else let rr := go r in (fst ke :: fst rr, snd rr)
-                   end) kids in
+      let fr := cut_forest xml_relem kids cut in
       let ty := xml_type attrs in
       let st := ty =? T_STRUCT in
       (RE (resolve_tag (xml_raw_tag name attrs)) ty (xml_value attrs)
           (if st then fst fr else []) (if st then snd fr else false), snd fr)
     end.
-  Fixpoint xml_forest (l : list xelem) (cut : bool) : list (relem XRaw) * bool :=
-    match l with
-    | [] => ([], cut)
-    | k :: r =>
-      let ke := xml_relem k in
-      if snd ke then ([fst ke], true)
-      else let rr := xml_forest r cut in (fst ke :: fst rr, snd rr)
-    end.
+  Definition xml_forest (l : list xelem) (cut : bool) : list (relem XRaw) * bool :=
+    cut_forest xml_relem l cut.
 
   (** newXMLReader: the first Next() fails on a document without any element *)
   Definition xml_cursor (doc : list xelem) (cut : bool) : res (cur XRaw) :=
@@ -325,15 +342,7 @@ Section WithRegistry.
   (** ============================================================ JSON reader *)
 
   (** m[k] on the decoded object: the last of duplicate members *)
-  Fixpoint jget (k : list Z) (m : list (list Z * jvalue)) : option jvalue :=
-    match m with
-    | [] => None
-    | (k', v) :: r =>
-      match jget k r with
-      | Some x => Some x
-      | None => if seqb k' k then Some v else None
-      end
-    end.
+  Definition jget (k : list Z) (m : list (list Z * jvalue)) : option jvalue := jfind_map (fun x => x) k m.
   (** x, _ := m[k].(string) *)
   Definition jget_str (k : list Z) (m : list (list Z * jvalue)) : list Z :=
     match jget k m with Some (JStr s) => s | _ => [] end.
@@ -351,18 +360,7 @@ Section WithRegistry.
     | JObj m =>
       let tag := resolve_tag (jget_str s_tag m) in
       let ty := json_type m in
-      let kids := (fix go (m : list (list Z * jvalue)) : option (list (relem JRaw) * bool) :=
-                     match m with
-                     | [] => None
-                     | (k, x) :: r =>
-                       match go r with
-                       | Some z => Some z
-                       | None =>
-                         if seqb k s_value then
-                           Some (match x with JArr l => (map json_relem l, false) | _ => ([], true) end)
-                         else None
-                       end
-                     end) m in
+      let kids := jfind_map (fun x => match x with JArr l => (map json_relem l, false) | _ => ([], true) end) s_value m in
       let raw := match jget s_value m with Some x => x | None => JNull end in
       if ty =? T_STRUCT then
         match kids with
